@@ -145,12 +145,13 @@ def run_history(ptn, seed, quick, want_graphs=True):
     def new_state(maxD=3):
         _, qD = canon.gen_charges(rng, L, len(qd), 'mps', 'u1', qd=qd, q_start=q_lead, qtot=qtot[0], maxD=maxD, dead=bool(rng.random() < 0.2))
         qtot[0] = qD[-1][0]
-        psi = ptn.MPS(qd, qD, fill='random', rng=rng)
+        fill = 'random' if rng.random() < 0.85 else float(rng.choice([1.0, 0.5, -2.0]))
+        psi = ptn.MPS(qd, qD, fill=fill, rng=rng)
         return psi
 
     def new_op(maxD=2):
         _, qD = canon.gen_charges(rng, L, len(qd), 'mpo', 'u1', qd=qd, q_start=0, qtot=0, maxD=maxD, dead=False)
-        return ptn.MPO(qd, qD, fill='random', rng=rng)
+        return ptn.MPO(qd, qD, fill='random' if rng.random() < 0.8 else float(rng.choice([1.0, 0.25])), rng=rng)
 
     def observe(name, kind_, target, created, operands, fn):
         """run fn() (the real call) and append the C02 / C19 records"""
